@@ -123,7 +123,11 @@ type Realm struct {
 	Policy Policy
 	// SvcRealm routes a service name to the realm that owns it (for referrals); Next gives the next hop towards a realm.
 	SvcRealm map[string]string
-	Next     map[string]string
+	// AutoService names further services this realm owns without registering each (thousands of spare services);
+	// AutoRoute routes such names to their realm.
+	AutoService func(name string) bool
+	AutoRoute   func(name string) (string, bool)
+	Next        map[string]string
 
 	mu                 sync.Mutex
 	princs             map[string]*Principal
@@ -246,7 +250,33 @@ func (w *World) CrossKey(from, to string, et int32) mint.Key {
 }
 
 // Principal looks a principal up.
-func (r *Realm) Principal(name string) *Principal { return r.princs[name] }
+func (r *Realm) Principal(name string) *Principal {
+	r.mu.Lock()
+	defer r.mu.Unlock()
+	return r.lookup(name)
+}
+
+// lookup finds a principal; services accepted by AutoService come into being when first asked for (r.mu held).
+func (r *Realm) lookup(name string) *Principal {
+	if p := r.princs[name]; p != nil {
+		return p
+	}
+	if r.AutoService != nil && r.AutoService(name) {
+		return r.AddService(name)
+	}
+	return nil
+}
+
+// svcRealm routes a service name to the realm that owns it.
+func (r *Realm) svcRealm(name string) (string, bool) {
+	if t, ok := r.SvcRealm[name]; ok {
+		return t, true
+	}
+	if r.AutoRoute != nil {
+		return r.AutoRoute(name)
+	}
+	return "", false
+}
 
 func (r *Realm) det(label string, n int) []byte {
 	r.counter++
@@ -381,11 +411,11 @@ func (r *Realm) handleAS(raw []byte) []byte {
 			return r.KRBError(ErrWrongRealm, cnameV, crealm, snameV, nil, false)
 		}
 	}
-	cl := r.princs[nameOf(cnameV)]
+	cl := r.lookup(nameOf(cnameV))
 	if cl == nil || cl.Password == "" {
 		return r.KRBError(ErrCPrincipalUnknown, cnameV, crealm, snameV, nil, r.Policy.OmitErrCName)
 	}
-	svc := r.princs[nameOf(snameV)]
+	svc := r.lookup(nameOf(snameV))
 	if svc == nil {
 		return r.KRBError(ErrSPrincipalUnknown, cnameV, crealm, snameV, nil, r.Policy.OmitErrCName)
 	}
@@ -585,8 +615,8 @@ func (r *Realm) handleTGS(raw []byte) []byte {
 	// which key decrypts the presented ticket?
 	var tkey mint.Key
 	switch {
-	case tRealm == r.Name && r.princs[tSName] != nil:
-		tkey = r.Key(r.princs[tSName], tet)
+	case tRealm == r.Name && r.lookup(tSName) != nil:
+		tkey = r.Key(r.lookup(tSName), tet)
 	case tSName == "krbtgt/"+r.Name:
 		tkey = r.World.CrossKey(tRealm, r.Name, tet)
 	case tRealm == r.Name && strings.HasPrefix(tSName, "krbtgt/"):
@@ -690,15 +720,15 @@ func (r *Realm) handleTGS(raw []byte) []byte {
 		}
 		tk = mkTicket(tSName, tkey, r.kvnoOf(tSName))
 		tk.EncKey.EType = tkey.EType
-	case r.princs[sname] != nil && !strings.HasPrefix(sname, "krbtgt/") || sname == "krbtgt/"+r.Name:
-		svc := r.princs[sname]
+	case r.lookup(sname) != nil && !strings.HasPrefix(sname, "krbtgt/") || sname == "krbtgt/"+r.Name:
+		svc := r.lookup(sname)
 		tk = mkTicket(sname, r.Key(svc, r.Policy.TicketEType), svc.KVNO)
 	default:
 		// referral: which realm owns the service / is named by krbtgt/X ?
 		target := ""
 		if strings.HasPrefix(sname, "krbtgt/") {
 			target = strings.TrimPrefix(sname, "krbtgt/")
-		} else if t, ok := r.SvcRealm[sname]; ok {
+		} else if t, ok := r.svcRealm(sname); ok {
 			target = t
 		}
 		if target == "" || target == r.Name {
@@ -729,7 +759,7 @@ func (r *Realm) handleTGS(raw []byte) []byte {
 }
 
 func (r *Realm) kvnoOf(name string) int {
-	if p := r.princs[name]; p != nil {
+	if p := r.lookup(name); p != nil {
 		return p.KVNO
 	}
 	return 1
